@@ -143,8 +143,10 @@ fn mp_json(mp: &IMp) -> String {
 
 /// One run of the public stages on (a, b, op): a JSON record (one line).
 pub fn stage_run<F: Fl>(rid: u64, family: &str, seed: u64, a: &IMp, b: &IMp, op: &str, matrix_max: usize, rng: &mut Rng) -> String {
-    let ga = run::to_geo::<F>(a, 0);
-    let gb = run::to_geo::<F>(b, 0);
+    // (NEG_ZERO: zeros of the SECOND operand - and of both, in half of those runs - are handed over as -0.0)
+    let nz = NEG_ZERO.with(|z| z.get());
+    let ga = run::to_geo_nz::<F>(a, 0, if nz.0 { (true, true) } else { (false, false) });
+    let gb = run::to_geo_nz::<F>(b, 0, if nz.1 { (true, true) } else { (false, false) });
     let mag = run::magnitude(&[a, b]);
     let operation = run::op_of(op);
     let inf = BoundingBox { min: Coord { x: F::infinity(), y: F::infinity() }, max: Coord { x: F::neg_infinity(), y: F::neg_infinity() } };
@@ -274,6 +276,10 @@ pub fn stage_run<F: Fl>(rid: u64, family: &str, seed: u64, a: &IMp, b: &IMp, op:
     out
 }
 
+thread_local! {
+    static NEG_ZERO: std::cell::Cell<(bool, bool)> = const { std::cell::Cell::new((false, false)) };
+}
+
 pub fn rec_stages(kind_f32: bool, fams: &[&str], count: u64, seed: u64, kmax: i64, max_edges: usize, matrix_max: usize, rid0: u64, efrom: u64, estride: u64) {
     let o = ops::Opts { kmax, max_edges };
     let mut rid = rid0;
@@ -290,6 +296,8 @@ pub fn rec_stages(kind_f32: bool, fams: &[&str], count: u64, seed: u64, kmax: i6
                 break (a, b);
             }
         };
+        // one run in five hands the zeros of the operands over as -0.0 (a mirrored operand): equal points with different bits
+        NEG_ZERO.with(|z| z.set(if rng.chance(1, 5) { (rng.chance(1, 2), true) } else { (false, false) }));
         for (op, _) in run::OPS {
             let line = if kind_f32 {
                 stage_run::<f32>(rid, fam, sd, &a, &b, op, matrix_max, &mut rng)
@@ -595,8 +603,9 @@ pub fn float_pi_exact<F: Fl>(count: u64, seed: u64) {
     let mut rng = Rng::new(seed);
     let f32_ = F::NAME == "f32";
     for id in 1..=count {
-        let mode = rng.below(8);
+        let mode = rng.below(10);
         let r = |rng: &mut Rng, lo: i64, hi: i64| rng.range(lo, hi) as f64;
+        let mut no_frame = false;
         // integer-valued points (exactly representable), later scaled by a power of two
         let (mut a1, mut a2, mut b1, mut b2): ((f64, f64), (f64, f64), (f64, f64), (f64, f64));
         match mode {
@@ -645,6 +654,33 @@ pub fn float_pi_exact<F: Fl>(count: u64, seed: u64) {
                 b1 = (p.0 - w.0, p.1 - w.1);
                 b2 = (p.0 + w.0 * r(&mut rng, 1, 2), p.1 + w.1 * r(&mut rng, 1, 2));
             }
+            8 | 9 => {
+                // MIXED MAGNITUDES: a lattice vertex V exactly in the interior of an oblique lattice edge a (integers up to 4000),
+                // b from V to a point whose coordinates have fine fractional parts (k * 2^-16 near an axis, or an integer below
+                // 4096 plus k * 2^-10): all exactly representable in f32 and f64, but the DIFFERENCES of end points need more
+                // than 24 bits. Mode 9 lets b pass through V instead (a proper crossing at a lattice point).
+                let v = (r(&mut rng, 1, 40), r(&mut rng, -40, 40));
+                let (n, m) = (rng.range(2, 60), 0);
+                let _ = m;
+                let mm = rng.range(1, n - 1) as f64;
+                a1 = (r(&mut rng, -1500, 1500), r(&mut rng, -1500, 1500));
+                a2 = (a1.0 + n as f64 * v.0, a1.1 + n as f64 * v.1);
+                let vv = (a1.0 + mm * v.0, a1.1 + mm * v.1);
+                let fine = |rng: &mut Rng| -> f64 {
+                    if rng.chance(1, 2) { r(rng, -40, 40) * 2f64.powi(-16) } else { r(rng, -4000, 4000) + r(rng, -500, 500) * 2f64.powi(-10) }
+                };
+                let w = (fine(&mut rng), fine(&mut rng));
+                if mode == 8 {
+                    b1 = vv;
+                    b2 = w;
+                } else {
+                    // through V: the other end point is the reflection of w's integer part (exact), so V is interior to b
+                    let wi = (w.0.round(), w.1.round());
+                    b1 = (wi.0, wi.1);
+                    b2 = (2.0 * vv.0 - wi.0, 2.0 * vv.1 - wi.1);
+                }
+                no_frame = true;
+            }
             _ => {
                 a1 = (r(&mut rng, -900, 900), r(&mut rng, -900, 900));
                 a2 = (r(&mut rng, -900, 900), r(&mut rng, -900, 900));
@@ -667,7 +703,7 @@ pub fn float_pi_exact<F: Fl>(count: u64, seed: u64) {
             }
         };
         // (the step squares cross products of coordinate differences: beyond 2^+-200 that leaves the f64 range - the same frame bound as C08)
-        let e = if f32_ { rng.range(-60, 60) } else { rng.range(-200, 200) };
+        let e = if no_frame { rng.range(-3, 3) } else if f32_ { rng.range(-60, 60) } else { rng.range(-200, 200) };
         let sc = 2f64.powi(e as i32);
         let tf = |p: (f64, f64)| -> (f64, f64) {
             let q = sy(p);
